@@ -47,7 +47,8 @@ EXTENDS Integers, Sequences, FiniteSets, TLC, Json
 
 CONSTANTS AllFormats,  \* FALSE: json only; TRUE: json, yaml and toml
           Routers,     \* subset of {"incoming", "peer"}: both of a node's routers serve /query/
-          Lengths      \* lengths of the reference token
+          Lengths,     \* lengths of the reference token
+          Blanks       \* ids b of configured tokens made of white space only, carried as len = -b (-1 " ", -2 "\n", -3 "\r\n", -4 " \t ")
 
 VARIABLES vec, outs, act
 vars == <<vec, outs, act>>
@@ -71,6 +72,10 @@ Vectors ==
   {[router |-> r, cfgSet |-> c, len |-> L, kind |-> k, cut |-> 0] : r \in Routers, c \in BOOLEAN, L \in Lengths, k \in PlainKinds}
   \cup UNION {{[router |-> r, cfgSet |-> c, len |-> L, kind |-> k, cut |-> n] : r \in Routers, c \in BOOLEAN, k \in {"prefix", "sametail"}, n \in Cuts(L)} : L \in Lengths}
   \cup {[router |-> r, cfgSet |-> c, len |-> L, kind |-> "extend", cut |-> n] : r \in Routers, c \in BOOLEAN, L \in Lengths, n \in Extras}
+  \* a configured token that is nothing but white space (a secret file holding only its newline) is still a token: a request
+  \* that carries no token, an empty one, a wrong one or the token in the wrong header is refused. Whether such a token can be
+  \* presented at all (HTTP trims header values) the statement leaves open, so there is no "exact" vector for it.
+  \cup {[router |-> r, cfgSet |-> TRUE, len |-> 0 - b, kind |-> k, cut |-> 0] : r \in Routers, b \in Blanks, k \in {"absent", "empty", "wrongheader", "other"}}
 
 \* characters: "a" a letter of T, "A" the same letter in the other case, "z" a different character
 Rep(ch, n) == [i \in 1 .. n |-> ch]
@@ -86,7 +91,7 @@ HeaderValue(v) ==
     [] v.kind = "sametail" -> SubSeq(T(v.len), 1, v.cut) \o Rep("z", v.len - v.cut)
     [] v.kind = "extend"   -> T(v.len) \o Rep("z", v.cut)
 \* the configured value
-CfgValue(v) == IF v.cfgSet THEN T(v.len) ELSE <<>>
+CfgValue(v) == IF ~v.cfgSet THEN <<>> ELSE IF v.len < 0 THEN <<"blank", v.len>> ELSE T(v.len)
 
 \* C25: a non-empty token is configured and the request carries exactly it
 Allowed(v) == CfgValue(v) # <<>> /\ HeaderValue(v) = CfgValue(v)
